@@ -24,7 +24,6 @@ def run(ctx):
     seen = lib_guards.analyse(ctx, P, funcs=gate)
     lib_guards.presence(ctx, seen, funcs=gate)
     E = lib_err.discipline(ctx, P, ["tables", "trees"], funcs=gate | {"tsk_treeseq_load", "tsk_treeseq_loadf", "tsk_table_collection_check_offsets"})
-    lib_sweep.sweep_conditions(ctx, P)
     # Python: tree_sequence() validates the index the collection carries
     m = py.mod("tables")
     fn = py.func("tables", "TableCollection.tree_sequence")
